@@ -229,6 +229,10 @@ func runC03(c *fw.Ctx) {
 			}
 		})
 	}
+	// tensors that took part in REJECTED calls are used again
+	for i := 0; i < c.Pick(2000, 20000); i++ {
+		c.Case(func(k *fw.K) { rejectThenReuse(k, RandShape(k.Rng, 0, 4, 3)) })
+	}
 	// element-wise operations on operands with a history (results of MatMul / Patch / Reshape / Full ... used again)
 	for i := 0; i < c.Pick(3000, 40000); i++ {
 		c.Case(func(k *fw.K) {
